@@ -738,6 +738,12 @@ class C08(Check):
                 labels = rng.sample([0, 7, 2 ** 40, 2 ** 63, 12345678901, 3, 999], N)
             recs, L = gen.records(rng, N=N, wt=wt, labels=labels, maxw=4, ensure_two=False,
                                   heavy=("wide" if rng.random() < 0.03 else True if rng.random() < 0.15 else None))
+            if lt in "ui" and rng.random() < 0.15:
+                # the very first label is the largest value of its type (a -1 read as 2^64-1; a sentinel)
+                top = 2 ** 64 - 1 if lt == "u" else 2 ** 31 - 1
+                old0 = recs[0][0]
+                if top not in [x for r0 in recs for x in r0[:2]]:
+                    recs = [(top if s0 == old0 else s0, top if d0 == old0 else d0, ws) for s0, d0, ws in recs]
             cid = "r%d" % n
             cases.append(gen.case_net(cid, directed, lt, recs, L, wt))
             meta[cid] = (directed, lt, wt, recs, L)
@@ -1450,6 +1456,10 @@ class C17(Check):
                                        prior=rng.choice([0.0, 0.0, 4.0]),
                                        seed=rng.choice([rng.randint(0, 2 ** 32), 2 ** 32 + rng.randint(0, 1000)]))
                 for k in range(120 if self.tier == "quick" else 1500)}
+        for k, rc in enumerate(runs.values()):
+            if k % 5 == 2:
+                rc.ushape = rng.choice([1, 2, 3])    # the caller's out-membership container in another shape (N*K elements)
+                rc.vshape = rng.choice([0, 1, 2, 3, 4])
         io2, mo2 = self.correspond("run", [rc.line(c) for c, rc in runs.items()],
                                    keys=lambda a, b: [k for k in a if k[0] == "s" and k != "seed"], drift=True)
         for cid, rc in runs.items():
